@@ -70,7 +70,7 @@ package v2
 // "The payload of a transaction" must be what this node obtained FOR THAT TRANSACTION: the payload of a private transaction is
 // looked up by something only that transaction has (its reference), not by its payload hash alone - the hash is public, and a
 // second private transaction by anyone can carry it. FAILS on the current tree (known finding: the store is keyed by hash only).
-//@   ensures [a-private-payload-is-looked-up-per-transaction] did(call (dag.State).ReadPayload #1) && len(tx.PAL()) > 0 ==> didCallWith("(dag.State).ReadPayload", 2, tx.Ref())
+//@   ensures [C15: a-private-payload-is-looked-up-per-transaction] did(call (dag.State).ReadPayload #1) && len(tx.PAL()) > 0 ==> didCallWith("(dag.State).ReadPayload", 2, tx.Ref())
 
 //@ func (*protocol).handleTransactionPayload
 //@   prop C15 C19
